@@ -57,6 +57,9 @@ class CazacBasedChannelEstimator:
             ue_ref_seq = ue_ref_seq.seq_array()
         else:
             self._normalized_ref_seq = False
+            # Own copy: the estimator must not follow later changes of the
+            # caller's array (e.g. one reference buffer refilled in place)
+            ue_ref_seq = np.array(ue_ref_seq)
 
         self._ue_ref_sequence = ue_ref_seq
         # Python int: `size_multiplier * Nsc` must not be computed in a
